@@ -6,7 +6,7 @@ CONSTANTS
   MaxCqs = {2}
   MaxCalls = 1
   StartQids = {3}
-  Datagrams = {TRUE, FALSE}
+  Datagrams = {TRUE}
   UNBUFFERED_HANDOFF = FALSE
   RANDOM_SELECT = FALSE
   DOUBLE_COUNT = FALSE
